@@ -126,3 +126,14 @@ Theorem C18_source_effects :
   (forall q e k refs i, peq (src_handle_cache_hit q e k refs i) (handle_cache_hit q e k refs i)).
 Proof. repeat split; [exact tie_round_trip|exact tie_handle_cache_miss|exact tie_handle_cache_hit]. Qed.
 Print Assumptions C18_source_effects.
+
+(* the freshness computation itself — CalculateFreshness with its precedence of max-age / Expires / heuristics, the request's
+   max-age, min-fresh and max-stale, and the flags the hit decision reads; calculateCurrentAge with its saturating sums and
+   Go's wrapping multiplication; heuristicFreshness with Go's truncating division — is what /verif/translate derives from
+   internal/freshness.go on this run, for every stored entry, directive set and clock reading *)
+Theorem C18_source_freshness :
+  (forall e rq rs now, src_calculate_freshness e rq rs now = calculate_freshness e rq rs now) /\
+  (forall h date rt st now, src_current_age h date rt st now = (current_age h date rt st now, now)) /\
+  (forall h date, src_heuristic_freshness h date = heuristic_freshness h date).
+Proof. split; [exact tie_calculate_freshness|split; [exact tie_current_age|exact tie_heuristic_freshness]]. Qed.
+Print Assumptions C18_source_freshness.
